@@ -119,4 +119,5 @@ type Event struct {
 	ArgsJSON string `json:"args_json"`
 	Text     string `json:"text"` // first bytes of the result text, diagnostics only (never used for verdicts)
 	Ms       int    `json:"ms"`
+	Retried  string `json:"retried"` // infrastructure error of a first attempt at this row ("" = none); the row was then executed afresh
 }
